@@ -639,6 +639,8 @@ def generate(vc_path, out_dir, canary=False, lenient=False):
                         raise ContractSyntax("bad @sub at line %d" % s.lineno)
                     o = parse_opts(m.group(3))
                     fs.subs.append((m.group(1), m.group(2).replace("\\/", "/"), o.get("why", "")))
+                elif s.name == "private":
+                    fs.subs.append((r"^(\s*)pub(\([a-z]+\))?\s+fn\b", r"\1fn", "visibility only: contracts of this function mention private fields/spec functions"))
                 elif s.name == "bodyless":
                     fs.bodyless = True
                 elif s.name == "unclaimed":
